@@ -2,6 +2,7 @@
 From Coq Require Import List Bool String Arith.
 Import ListNotations.
 From Attrs Require Import Core.Attr Core.Init Core.InitProofs Core.Faults Core.InitProps.
+From Attrs Require C02.Compose C02.ComposeProofs.
 Open Scope string_scope.
 
 (** The fault-free callback trace is exactly
@@ -68,3 +69,48 @@ Theorem single_fault : forall k sc von pos kw en j,
   InitRaised (EUser j) (firstn (S j) (expected_trace k von en)).
 Proof. exact single_fault_l. Qed.
 Print Assumptions single_fault.
+
+(** ** Composite callbacks (converter lists / pipe with Converter members, validator lists /
+    shared and_ composites): what runs inside one field's converter and validator.
+    For EVERY fault oracle, any number of fields, members and validators: the step-by-step
+    run is the specification trace - all converter members in list order, each exactly once,
+    each on the previous member's result and given instance/field iff it is a Converter
+    asking for them, fields in order; then every validator of every field in order on the
+    stored value - cut after the first raising callback; construction finishes, with
+    member-composition values stored, iff no callback of that trace raises. *)
+Theorem composite_protocol : forall f von fs,
+  Compose.run_ctor f von fs =
+  (Compose.cut f (Compose.expected von fs) 0,
+   if Compose.faulty f (List.length (Compose.expected von fs)) 0 then None
+   else Some (Compose.stored fs 0)).
+Proof. exact ComposeProofs.run_ctor_spec. Qed.
+Print Assumptions composite_protocol.
+
+Theorem composite_fault_free : forall von fs,
+  Compose.run_ctor Compose.no_fault von fs = (Compose.expected von fs, Some (Compose.stored fs 0)).
+Proof. exact ComposeProofs.run_ctor_nofault. Qed.
+Print Assumptions composite_fault_free.
+
+(** a single raising callback at position k of the trace: exactly the prefix up to and including it *)
+Theorem composite_single_fault : forall k evs,
+  k < List.length evs -> Compose.cut (Nat.eqb k) evs 0 = firstn (S k) evs.
+Proof.
+  intros k evs H. rewrite ComposeProofs.cut_single. cbn [Nat.add Nat.leb].
+  apply Nat.ltb_lt in H. rewrite H. cbn. now rewrite Nat.sub_0_r.
+Qed.
+Print Assumptions composite_single_fault.
+
+(** the members of a converter list run once each, in list order *)
+Theorem composite_members_once : forall fld steps x,
+  map (fun e => match e with Compose.EConv _ fn _ _ _ => fn | Compose.EVal _ fn _ => fn end)
+      (Compose.pipe_events fld steps x) = map Compose.s_fn steps.
+Proof. exact ComposeProofs.pipe_events_fns. Qed.
+Print Assumptions composite_members_once.
+
+(** non-vacuity: a two-field class with a mixed converter list and a shared validator pair *)
+Example composite_example :
+  let st := [Compose.Build_step "f" false false; Compose.Build_step "g" true false; Compose.Build_step "h" false false] in
+  let fs := [Compose.Build_cfield "a" st ["v1"; "v2"]; Compose.Build_cfield "b" [] ["v1"; "v2"]] in
+  List.length (Compose.expected true fs) = 7 /\
+  fst (Compose.run_ctor (Nat.eqb 1) true fs) = firstn 2 (Compose.expected true fs).
+Proof. vm_compute. split; reflexivity. Qed.
